@@ -512,4 +512,29 @@ pub mod props {
         }
     }
 //@@ end
+
+//@@ lemma
+//@@ unit lemma.C18.undeclared_variables_are_irrelevant tags=C18
+    /// C18 "Variables not declared by the parser never influence the outcome": flag_rel / arg_rel (which ParseFlag::eval and
+    /// take_argument are proved to refine) consult the environment only through `env_value(named.env)`; that value is the same in
+    /// any two environments that agree on the declared names, and it is this run's environment read at the declared names only
+    pub proof fn lemma_c18_env_frame(e1: spec_fn(&'static str) -> Option<OsString>, e2: spec_fn(&'static str) -> Option<OsString>, names: Seq<&'static str>)
+        requires forall|i: int| 0 <= i < names.len() ==> e1(#[trigger] names[i]) == e2(names[i]),
+        ensures env_value_in(e1, names) == env_value_in(e2, names), // #environments_that_agree_on_the_declared_names_give_the_same_value
+        decreases names.len(),
+    {
+        if names.len() > 0 {
+            let t = names.drop_first();
+            assert(e1(names[0]) == e2(names[0]));
+            assert forall|i: int| 0 <= i < t.len() implies e1(#[trigger] t[i]) == e2(t[i]) by { assert(t[i] == names[i + 1]); }
+            lemma_c18_env_frame(e1, e2, t);
+        }
+    }
+    pub proof fn lemma_c18_env_value_is_env_value_in(names: Seq<&'static str>)
+        ensures env_value(names) == env_value_in(|k: &'static str| env_var(k), names), // #the_run_reads_its_environment_at_the_declared_names_only
+        decreases names.len(),
+    {
+        if names.len() > 0 { lemma_c18_env_value_is_env_value_in(names.drop_first()); }
+    }
+//@@ end
 }
